@@ -36,6 +36,7 @@ ANDW = [' and ', ', ', ' & ']
 THRU = [' - ', '-', ' through ', ' thru ', ' to ', ' – ']
 CONN = [' of ', ' in ', ', ']
 SEP = [', ', '; ', '\n', ' ']
+COLON = [': ', ' : ', ':\n', ' :\n', ':']
 DIRS = [('N', 'W'), ('S', 'E'), ('N', 'E'), ('S', 'W')]
 # (twp, rge) replacing the structure's own numbers, per Twp/Rge group position
 NUMS = [None, [(7, 9), (15, 1)], [(1, 102), (154, 9)], [(15, 2), (7, 97)]]
@@ -57,9 +58,9 @@ BLOCKS = [
 DIMS = {
     'tr': len(TR_SPELL), 'dirs': len(DIRS), 'nums': len(NUMS), 'secnums': len(SECNUMS),
     'secw': len(SECW), 'andw': len(ANDW), 'thru': len(THRU), 'conn': len(CONN),
-    'sep': len(SEP), 'blockrot': len(BLOCKS),
+    'sep': len(SEP), 'blockrot': len(BLOCKS), 'colon': len(COLON),
 }
-DIM_ORDER = ('tr', 'dirs', 'nums', 'secnums', 'secw', 'andw', 'thru', 'conn', 'sep', 'blockrot')
+DIM_ORDER = ('tr', 'dirs', 'nums', 'secnums', 'secw', 'andw', 'thru', 'conn', 'sep', 'blockrot', 'colon')
 
 # Structures: list of Twp/Rge groups; each group: (twp, rge, [ (kind, a, b) ]).  Blocks are
 # assigned round-robin from BLOCKS starting at the 'blockrot' offset.
@@ -151,7 +152,7 @@ def render(layout, struct, r):
             for n in nums:
                 exp.append((f"{trs}{n:02d}", block))
             if layout in ('TRS_desc', 'S_desc_TR'):
-                parts.append(f"{stxt}: {block}")
+                parts.append(f"{stxt}{COLON[r.get('colon', 0)]}{block}")
             else:
                 parts.append(f"{block}{conn}{stxt}")
         if layout in ('TRS_desc', 'TR_desc_S'):
